@@ -26,6 +26,7 @@ var (
 // Replay replays a commit on a collection, applying the changes.
 func (c *Collection) Replay(change commit.Commit) error {
 	return c.Query(func(txn *Txn) error {
+		txn.replay = true
 		txn.dirty.Set(uint32(change.Chunk))
 		for i := range change.Updates {
 			if !change.Updates[i].IsEmpty() {
